@@ -74,7 +74,7 @@ def forwards_to_itself(ser):
 
 def check(pid, tier, deadline):
     t0 = time.time()
-    unit = {'name': 't_diverge', 'src': 'checks/tdiverge.cpp', 'flags': [], 'opt': '-O0' if tier == 'quick' else '-O1'}
+    unit = {'name': 't_diverge', 'src': 'checks/tdiverge.cpp', 'flags': [], 'opt': '-O0'}  # one binary for both tiers: its compile time dominates its run time
     binp, dt, cached = V.build_unit(unit['src'], unit['flags'], None, unit['opt'])
     agg = V.Agg(pid)
     agg.units.append({'unit': 't_diverge', 'src': unit['src'], 'build_s': round(dt, 1), 'cached': cached})
@@ -97,13 +97,24 @@ def check(pid, tier, deadline):
         else:
             todo.append((k, t[0]))
     batches = [todo[i:i + BATCH] for i in range(0, len(todo), BATCH)]
+    # global deadline for the static side: batches not started by then are reported as not covered (exhaustive: false)
+    t_end = t0 + (900 if tier == 'quick' else 3600)
+    skipped = [0]
+
+    def guarded(b):
+        if time.time() > t_end:
+            skipped[0] += len(b)
+            return {k: None for k, _ in b}
+        return _analyze_batch(b)
     with cf.ThreadPoolExecutor(V.NCPU) as ex:
-        for res in ex.map(_analyze_batch, batches):
+        for res in ex.map(guarded, batches):
             problems.update(res)
     certified = 0
     refused = 0
     viol = 0
     for k, (ser, n, kind, wit, conf) in enumerate(tables):
+        if k in problems and problems[k] is None:
+            continue  # not reached before the deadline
         p = problems.get(k)
         if p is None:
             agg.broken.append('no analyze result for table %s' % ser)
@@ -124,7 +135,10 @@ def check(pid, tier, deadline):
     agg.evaluations += len(tables)
     agg.states += len(tables)
     agg.transitions += len(tables)
-    agg.counters['static.grammars_analyzed'] = len(tables)
+    if skipped[0]:
+        agg.exhaustive = False
+        agg.notes.append('static side stopped at its deadline: %d of %d grammars were not analysed' % (skipped[0], len(tables)))
+    agg.counters['static.grammars_analyzed'] = len(tables) - skipped[0]
     agg.counters['static.certified_by_analyze'] = certified
     agg.counters['static.analysis_does_not_compile_for_this_grammar'] = refused
     agg.counters['static.with_confirmed_witness'] = sum(1 for t in tables if t[2] and t[4])
